@@ -148,6 +148,81 @@ def ipow (x : α) : Nat → α
   | 0 => 1.0
   | n + 1 => x * ipow x n
 
+/-! ### inertia, inertiaZ (positions relative to the centre of geometry, as for gyration) -/
+def inertia (g : AGroup α) : α := (centered g).foldl (fun s p => s + V3.norm2 p) 0.0
+def inertiaGrad (g : AGroup α) : List (V3 α) := (centered g).map (V3.smul 2.0)
+
+/-- the axis is normalised when the configuration is read -/
+def inertiaZ (g : AGroup α) (axis : V3 α) : α :=
+  let u := V3.unit axis
+  (centered g).foldl (fun s p => s + V3.dot p u * V3.dot p u) 0.0
+def inertiaZGrad (g : AGroup α) (axis : V3 α) : List (V3 α) :=
+  let u := V3.unit axis
+  (centered g).map fun p => V3.smul (2.0 * V3.dot p u) u
+
+/-! ### distanceInv: generalised mean of the inverse distances between the atoms of two groups -/
+
+/-- `integer_power(x, -k)` -/
+def invPow (x : α) (k : Nat) : α := 1.0 / ipow x k
+
+/-- the pairs (atom of group 1, atom of group 2) in the order of the double loop -/
+def pairs (g1 g2 : AGroup α) : List (Atom α × Atom α) := g1.flatMap fun a => g2.map fun b => (a, b)
+
+/-- `(1/(N1 N2) Σ d_ij^-n)^(-1/n)` for an even exponent `n` -/
+def distanceInv (g1 g2 : AGroup α) (n : Nat) : α :=
+  let s := (pairs g1 g2).foldl (fun acc ab => acc + invPow (V3.norm2 (V3.sub ab.2.r ab.1.r)) (n / 2)) 0.0
+  Prim.pow (s * (1.0 / ((g1.length * g2.length : Nat) : α))) (-1.0 / (n : α))
+
+/-- what one pair adds to the gradient of the sum on the atom of group 2 (the atom of group 1 gets the opposite) -/
+def distanceInvPair (n : Nat) (a b : Atom α) : V3 α :=
+  let dv := V3.sub b.r a.r
+  let d2 := V3.norm2 dv
+  V3.smul (-1.0 * ((n / 2 : Nat) : α) * invPow d2 (n / 2) / d2 * 2.0) dv
+
+def distanceInvGrad (g1 g2 : AGroup α) (n : Nat) : List (V3 α) × List (V3 α) :=
+  let x := distanceInv g1 g2 n
+  let dxdsum := (-1.0 / (n : α)) * ipow x (n + 1) / ((g1.length * g2.length : Nat) : α)
+  (g1.map fun a => V3.smul dxdsum (g2.foldl (fun acc b => V3.sub acc (distanceInvPair n a b)) V3.zero),
+   g2.map fun b => V3.smul dxdsum (g1.foldl (fun acc a => V3.add acc (distanceInvPair n a b)) V3.zero))
+
+/-! ### coordNum: sum of a switching function over the pairs of two groups -/
+
+structure SwParams (α : Type) where
+  r0 : α
+  en : Nat          -- even
+  ed : Nat          -- even
+  tol : α           -- pair-list tolerance (0 when there is no pair list)
+
+/-- `(1 - l^(n/2)) / (1 - l^(m/2))` in the squared reduced distance `l = (d / r0)²`, shifted by the tolerance and rescaled
+    to [0, 1]; pairs whose value would be negative contribute nothing -/
+def swRaw (p : SwParams α) (l2 : α) : α := (1.0 - ipow l2 (p.en / 2)) / (1.0 - ipow l2 (p.ed / 2))
+def swValue (p : SwParams α) (l2 : α) : α :=
+  let f := (swRaw p l2 - p.tol) / (1.0 - p.tol)
+  if f < 0.0 then 0.0 else f
+
+/-- derivative with respect to `l` (as repaired: of the unshifted function, rescaled like the function itself) -/
+def swDeriv (p : SwParams α) (l2 : α) : α :=
+  let xn := ipow l2 (p.en / 2)
+  let xd := ipow l2 (p.ed / 2)
+  let f := (swRaw p l2 - p.tol) / (1.0 - p.tol)
+  if f < 0.0 then 0.0 else
+  swRaw p l2 / (1.0 - p.tol) * (((p.ed / 2 : Nat) : α) * xd / ((1.0 - xd) * l2) - ((p.en / 2 : Nat) : α) * xn / ((1.0 - xn) * l2))
+
+def reducedDist2 (p : SwParams α) (a b : Atom α) : α :=
+  let d := V3.sub b.r a.r
+  (d.x / p.r0) * (d.x / p.r0) + (d.y / p.r0) * (d.y / p.r0) + (d.z / p.r0) * (d.z / p.r0)
+
+def coordNum (g1 g2 : AGroup α) (p : SwParams α) : α :=
+  (pairs g1 g2).foldl (fun acc ab => acc + swValue p (reducedDist2 p ab.1 ab.2)) 0.0
+
+/-- gradient of one pair on the atom of group 2 -/
+def coordNumPair (p : SwParams α) (a b : Atom α) : V3 α :=
+  V3.smul (swDeriv p (reducedDist2 p a b) * (2.0 / (p.r0 * p.r0))) (V3.sub b.r a.r)
+
+def coordNumGrad (g1 g2 : AGroup α) (p : SwParams α) : List (V3 α) × List (V3 α) :=
+  (g1.map fun a => g2.foldl (fun acc b => V3.sub acc (coordNumPair p a b)) V3.zero,
+   g2.map fun b => g1.foldl (fun acc a => V3.add acc (coordNumPair p a b)) V3.zero)
+
 /-- `collect_cvc_values`: x = Σ c qⁿ -/
 def combine (ts : List (Term α)) : α := ts.foldl (fun s t => s + t.c * ipow t.q t.n) 0.0
 
